@@ -457,6 +457,12 @@ pub fn c05(opts: &Opts) -> Report {
                     vec![Seg::Sec(vec![Op::Split(",".into(), Range::Range(None, None, false)), Op::Filter("^[ab]$".into())])],
                     vec![Seg::Sec(vec![Op::Split(",".into(), Range::Range(None, None, false)), Op::Filter("(".into())])],   // failing call
                     vec![Seg::Sec(vec![Op::Upper]), Seg::Lit("-".into()), Seg::Sec(vec![Op::Upper])],
+                    // near-duplicate sections in one template: they differ only in a flag / in the letter case of an argument
+                    vec![Seg::Sec(vec![Op::Replace("o".into(), "0".into(), "".into())]), Seg::Lit(" / ".into()), Seg::Sec(vec![Op::Replace("o".into(), "0".into(), "g".into())])],
+                    vec![Seg::Sec(vec![Op::Split(",".into(), Range::Range(None, None, false)), Op::Filter("A".into()), Op::Join(",".into())]), Seg::Lit("-".into()), Seg::Sec(vec![Op::Split(",".into(), Range::Range(None, None, false)), Op::Filter("a".into()), Op::Join(",".into())])],
+                    vec![Seg::Sec(vec![Op::Surround("Q".into())]), Seg::Sec(vec![Op::Surround("q".into())])],
+                    // output is produced, then a LATER section fails at run time
+                    vec![Seg::Lit("id=".into()), Seg::Sec(vec![Op::Split(",".into(), Range::Index(0))]), Seg::Lit(" tag=".into()), Seg::Sec(vec![Op::Split(",".into(), Range::Range(None, None, false)), Op::Upper])],
                     // producers of texts that later calls split again on the same separator
                     vec![Seg::Sec(vec![Op::Split(" ".into(), Range::Range(None, None, false)), Op::Join(",".into())])],
                     vec![Seg::Sec(vec![Op::Split(",".into(), Range::Range(None, None, false)), Op::Map(vec![Op::Upper]), Op::Join("-".into())])],
